@@ -10,13 +10,17 @@ Property theorems.  Spec level (any element type, any strict weak order, all inp
 Model level (transliteration `Model/C08Msp.lean` of the C++):
   * `certified_run_is_the_partition`         — a model run accepted by the checker returned THE partition
   * `partition_rank_total`                   — the `rank == N` shortcut
-The all-inputs correctness of the halving refinement is OPEN (see the end of the file).
+  * `refinement_correct`, `refinement_correct_lists` — ALL INPUTS: the transliterated halving refinement succeeds (no
+                                               out-of-range read, no top() of an empty queue) and returns THE partition
+                                               (loop invariant `Inv`, Proofs/C08Inv*.lean … C08Correct.lean)
+Only `multisequence_selection`'s own loop is still OPEN (see the end of the file).
 -/
 import TlxVerif.Proofs.C08Spec
 import TlxVerif.Proofs.C08Checker
 import TlxVerif.Proofs.C08Exists
 import TlxVerif.Proofs.C08Select
 import TlxVerif.Proofs.C08Model
+import TlxVerif.Proofs.C08Correct
 import TlxVerif.Model.C08Msp
 namespace TlxVerif.C08
 
@@ -144,15 +148,35 @@ theorem ends_are_partition_at_total (lt : α → α → Bool) (runs : List (List
     simp only [List.getElem?_map, hrj, Option.map_some, Option.some.injEq] at hoj
     subst hoj; simp at hy
 
--- OPEN: msp_correct — for all sorted non-empty runs and 0 ≤ rank ≤ N, `partitionM` succeeds and its result is
---   the `IsPartition` offset vector (correctness of the halving refinement with the two priority queues,
---   Varman et al.): not proved.  Individual runs are certified by `certified_run_is_the_partition`
---   (translation validation); C06/C07 take `IsPartition` as hypothesis.
--- OPEN: msp_bounds — `0 ≤ a[i] ≤ len_i`, no out-of-range read and no `top()` of an empty queue for all inputs
---   (the model answers `model-failure` where the C++ would be undefined): not proved, never observed.
--- OPEN: selection_correct — `selectionM` itself returns an `IsSelection` for all inputs: follows from
---   `selection_characterised` once `refine` is known to end in a weak partition with `a[i] = min(b[i], len_i)`
---   (same open loop invariant as msp_correct); until then checked by the harness oracle (4 M exhaustive
---   cases) and the correspondence.
+/-- **Correctness of `multisequence_partition` (model) for all inputs** — closes the former OPEN items
+`msp_correct` and `msp_bounds`.  For every tuple of non-empty sequences sorted w.r.t. a strict weak order and
+every rank `0 ≤ rank ≤ N` the executable model (the function the driver runs, with its read trace) succeeds and
+its offsets are non-negative and satisfy the partition specification; by `partition_unique_at_rank` they are
+THE partition.  Proof: the invariant `Inv` (offsets are multiples of the stride inside their sequences,
+`b = a + stride − 1`, every left edge sample strictly before every right edge sample in (value, sequence)
+order) is established by the initial partition, preserved by the classification loop and by every
+priority-queue step, and at stride 1 with the exact rank it is the specification. -/
+theorem refinement_correct {c : Ctx} (hg : Good c) {rank : Nat} (hr : rank ≤ totalLen c) :
+    ∃ offs tr, runM (partitionM c rank) = .ok (offs, tr) ∧ offs.size = c.runs.size ∧
+      (∀ i, i < c.runs.size → 0 ≤ aget offs i) ∧ IsPartition c.lt (runsL c) rank (natOffs c offs) :=
+  msp_correct hg hr
+
+theorem refinement_correct_lists {lt : Int → Int → Bool} (hlt : StrictWeak lt) {runs : List (List Int)}
+    (hne : ∀ r ∈ runs, r ≠ []) (hs : ∀ r ∈ runs, SortedRun lt r) {rank : Nat}
+    (hr : rank ≤ (runs.map List.length).sum) :
+    ∃ offs tr, runM (partitionM (ctxOf lt runs) rank) = .ok (offs, tr) ∧
+      offs.toList.all (fun x => decide (0 ≤ x)) = true ∧
+      IsPartition lt runs rank (offs.toList.map Int.toNat) :=
+  msp_correct_lists hlt hne hs hr
+
+/-- the invariant is not vacuous: it holds (evaluated by the kernel) along a concrete run with ties -/
+example : checkRun ⟨Cmp.lt.fn, #[#[1, 2, 2, 2], #[1, 1], #[0, 2, 5]]⟩ .partition 4 = true := by decide +kernel
+
+-- OPEN: selection_correct — `selectionM` itself returns an `IsSelection` for all inputs.  Its loop is the same
+--   refinement with value-only comparisons (`comp(middle, *lmax)`, strict `maxleft` rule); the invariant is `Inv`
+--   with the weak validity "no left edge sample greater than a right edge sample" (evaluated by `checkRun … .selection`
+--   on every compared run) and the proofs of Proofs/C08Inv*.lean carry over with `Le` on values instead of
+--   `Before`; together with `selection_characterised` this gives the statement.  Not carried out; checked by the
+--   harness oracle (4 M exhaustive cases), the executable invariant and the correspondence.
 
 end TlxVerif.C08
